@@ -1,11 +1,11 @@
 package main
 
 import (
-	"strconv"
 	"go/constant"
 	"go/token"
 	"go/types"
 	"sort"
+	"strconv"
 	"strings"
 
 	"golang.org/x/tools/go/ssa"
@@ -61,7 +61,7 @@ func litFieldStores(fn *ssa.Function, typeSuffix string) map[*ssa.Alloc]map[stri
 }
 
 func checkC18(c *Check) {
-	c.Explanation = "Decided over package sdl: (R1) determinism — every range over a map is order-insensitive (collected keys/elements are sorted by the unique key before use) and no clock/random/environment source is called; (R2) field faithfulness — every declared field of the SDL service, expose, expose-target, service-deployment and placement structures is read by the translation (one waived field with its reason), and each flows unmodified into the same-meaning field of the manifest service / expose and of the deployment-group resource (image, command, args, env, count, resources, ports, protocol, hosts, target service, global flag, price, attributes, signed-by); (R3) sibling agreement — manifest and deployment groups use the same compute-profile converter, the same count and the same global flag, and per-iteration accumulators are allocated inside the loop whose element they describe; (R4) Read returns an SDL only after the derived groups and the derived manifest were validated; the version hashes exactly the derived manifest through sorted JSON."
+	c.Explanation = "Decided over package sdl: (R1) determinism — every range over a map is order-insensitive (collected keys/elements are sorted by the unique key before use) and no clock/random/environment source is called; (R2) field faithfulness — every declared field of the SDL service, expose, expose-target, service-deployment and placement structures is read by the translation (one waived field with its reason), and each flows unmodified into the same-meaning field of the manifest service / expose and of the deployment-group resource (image, command, args, env, count, resources, ports, protocol, hosts, target service, global flag, price, attributes, signed-by); (R3) sibling agreement — manifest and deployment groups use the same compute-profile converter, the same count and the same global flag, and per-iteration accumulators are allocated inside the loop whose element they describe; (R4) Read returns an SDL only after the derived groups and the derived manifest were validated; the version hashes exactly the derived manifest through sorted JSON. The accessors DeploymentGroups/Manifest keep nothing in their receiver."
 	c.NotDecided = "numeric unit parsing (1.5Gi, float rounding), YAML library behaviour"
 	l := c.L
 	fns := l.pkgFuncs("sdl")
@@ -89,6 +89,7 @@ func checkC18(c *Check) {
 		})
 	}
 	c.contentScans(fns)
+	c.accessorsKeepNoState("R1")
 	if nr < 7 {
 		c.Fail("C18-R1 lost instances: %d map ranges", nr)
 	}
@@ -575,10 +576,17 @@ func (c *Check) mapRangeSorted(fn *ssa.Function, rng *ssa.Range) (bool, string) 
 	}
 	h := next.Block()
 	body := loopBlocks(h)
-	var app *ssa.Call
+	var app ssa.Value
 	for b := range body {
 		for _, in := range b.Instrs {
 			switch x := in.(type) {
+			case *ssa.Store:
+				// keys written by index into a slice made for them
+				if ia, isIA := x.Addr.(*ssa.IndexAddr); isIA && x.Val == key {
+					if mk, isMk := ia.X.(*ssa.MakeSlice); isMk {
+						app = mk
+					}
+				}
 			case *ssa.Call:
 				full := calleeFull(x)
 				if full == "builtin.append" {
@@ -646,6 +654,13 @@ func (c *Check) contentScans(fns []*ssa.Function) {
 		var k int64
 		for {
 			bo, ok := v.(*ssa.BinOp)
+			if ok && bo.Op == token.SUB {
+				if cst, isC := constInt(bo.Y); isC {
+					k -= cst
+					v = bo.X
+					continue
+				}
+			}
 			if !ok || bo.Op != token.ADD {
 				return v, k
 			}
@@ -673,11 +688,14 @@ func (c *Check) contentScans(fns []*ssa.Function) {
 			if !isB || cond.Op != token.LSS {
 				continue
 			}
-			lenCall, _ := callOf(cond.Y)
+			// (the bound may be written len(Content)-j: idx+k < len-j is idx+k+j < len)
+			boundBase, kb := peel(cond.Y)
+			lenCall, _ := callOf(boundBase)
 			if lenCall == nil || calleeFull(lenCall) != "builtin.len" || !strings.HasSuffix(Sym(lenCall.Call.Args[0]), ".Content") {
 				continue
 			}
 			base, k := peel(cond.X)
+			k -= kb
 			ph, isPhi := base.(*ssa.Phi)
 			if !isPhi || ph.Block() != b {
 				continue
@@ -1073,5 +1091,47 @@ func (c *Check) unitTableAgrees(rule string) {
 	}
 	if n < 10 {
 		c.Info(rule, "unit suffix table: fewer rows recognised than on the pinned tree, agreement not decided for the rest", token.NoPos, itoa(n))
+	}
+}
+
+// accessorsKeepNoState: deriving the groups or the manifest is a function of the decoded document. The accessors
+// (and Version) must not write to their receiver: a result kept in the object is shared with every earlier caller,
+// and whatever a caller does to what it was handed shows up in the next derivation and in the hash.
+func (c *Check) accessorsKeepNoState(rule string) {
+	l := c.L
+	n := 0
+	for _, spec := range [][2]string{{"sdl", "DeploymentGroups"}, {"sdl", "Manifest"}, {"v2", "DeploymentGroups"}, {"v2", "Manifest"}} {
+		fn := l.Func("sdl", spec[0], spec[1])
+		c.Analysed(fnName(fn))
+		n++
+		bad := ""
+		pos := fn.Pos()
+		for _, g := range fnAndClosuresDeep(fn) {
+			if len(g.Params) == 0 {
+				continue
+			}
+			eachInstr(g, func(i ssa.Instruction) {
+				st, ok := i.(*ssa.Store)
+				if !ok {
+					return
+				}
+				a := st.Addr
+				for d := 0; d < 4; d++ {
+					fa, isFA := a.(*ssa.FieldAddr)
+					if !isFA {
+						break
+					}
+					if p := paramOfValue(fa.X); p != nil && paramIdx(p) == 0 && g == fn {
+						bad = "stores into field " + fieldName(fa.X.Type(), fa.Field) + " of its receiver"
+						pos = st.Pos()
+					}
+					a = fa.X
+				}
+			})
+		}
+		c.Ob(rule, spec[0]+"."+spec[1]+" derives its result anew and keeps nothing in the receiver", pos, bad == "", fnName(fn)+" "+bad+": later calls hand out the same shared value, so a caller's edit changes what the document 'says' (and its version hash)")
+	}
+	if n < 4 {
+		c.Fail("C18-%s lost instances", rule)
 	}
 }
